@@ -294,7 +294,12 @@ impl Prop for PRegex {
     }
 
     fn gen(&mut self, rng: &mut Rng, _idx: usize, tier: &str) -> Value {
-        let alpha: Vec<u32> = vec![97, 98, 99, 65, 66, 45, 95, 46, 43, 114];
+        let mut alpha: Vec<u32> = vec![97, 98, 99, 65, 66, 45, 95, 46, 43, 114];
+        // one case in three over an alphabet with characters of two and three bytes: '.', a bracket expression and a
+        // repetition are about characters, not bytes (no upper-case partners: -iregex stays about ASCII letters here)
+        if rng.chance(1, 3) {
+            alpha.extend([233u32, 26085, 233]);
+        }
         let size = 1 + rng.below(if tier == "thorough" { 12 } else { 8 });
         let syn = *rng.pick(&["emacs", "posix-basic", "posix-extended", "grep", "ed", "sed", "none"]);
         let eff = if syn == "none" { "emacs" } else { syn };
